@@ -173,7 +173,7 @@ func checkC01(c *Ctx, r *Report) {
 	nssK := noiseP + ".newSecureSession"
 	nsites := 0
 	for _, f := range c.FnsOfPkg(noiseP) {
-		for _, call := range callsIn(f, nssK) {
+		for _, call := range callsInOnly(f, nssK) {
 			nsites++
 			a := call.Common().Args // tpt, ctx, insecure, remote, prologue, iEDH, rEDH, initiator, checkPeerID
 			key := fnKey(f) + ": newSecureSession(checkPeerID)"
@@ -534,7 +534,7 @@ func checkC01(c *Ctx, r *Report) {
 		}
 		sig := f.Signature
 		if sig.Params().Len() == 1 && sig.Results().Len() == 2 && types.TypeString(sig.Params().At(0).Type(), nil) == "*crypto/tls.ClientHelloInfo" {
-			for _, cf := range callsIn(f, cfpK) {
+			for _, cf := range callsInOnly(f, cfpK) {
 				found = true
 				s, ok := constString(cf.Common().Args[1])
 				r7.Check(ok && s == "", fnKey(f)+": GetConfigForClient uses ConfigForPeer(\"\")", instrPos(cf.(ssa.Instruction)), 1, "", "", "")
@@ -623,7 +623,7 @@ func checkC01(c *Ctx, r *Report) {
 			continue
 		}
 		for _, w := range wrappers {
-			for _, call := range callsIn(f, w.key) {
+			for _, call := range callsInOnly(f, w.key) {
 				a := callArgs(call)
 				key := fnKey(f) + ": peer argument of " + calleeKey(call)
 				if len(a) <= w.arg {
